@@ -1,6 +1,8 @@
 package main
 
 import (
+	"sync"
+	"runtime"
 	"sync/atomic"
 	"bytes"
 	"fmt"
@@ -220,7 +222,49 @@ var getterTypes = map[int][]int{
 	7: {0x8028},
 }
 
+// concurrentXorGetters: goroutines (4 per P) each read XOR addresses (IPv6 and IPv4, three attribute types) from
+// a message of their own with a transaction ID of their own: every result is that message's address
+func concurrentXorGetters(o *out, prop string, rounds int) {
+	var wg sync.WaitGroup
+	var mu sync.Mutex
+	bad := ""
+	for w := 0; w < 4*runtime.GOMAXPROCS(0); w++ {
+		wg.Add(1)
+		go func(w int) {
+			defer wg.Done()
+			rr := newRng(uint64(7000 + w))
+			ip := rr.bytes([]int{16, 16, 4}[w%3])
+			port := rr.intn(65536)
+			m := new(stun.Message)
+			if m.Build(stun.BindingSuccess, stun.NewTransactionIDSetter(agentTID(w*991)), &stun.XORMappedAddress{IP: ip, Port: port}) != nil {
+				return
+			}
+			d := new(stun.Message)
+			if stun.Decode(m.Raw, d) != nil {
+				return
+			}
+			var a stun.XORMappedAddress
+			for i := 0; i < rounds; i++ {
+				if err := a.GetFrom(d); err != nil || !bytes.Equal(a.IP, ip) || a.Port != port {
+					mu.Lock()
+					if bad == "" {
+						bad = fmt.Sprintf("701 %s - 1,32 (goroutine %d round %d: read %v:%d, the message says %v:%d, err %v)", fHex(m.Raw), w, i, []byte(a.IP), a.Port, ip, port, err)
+					}
+					mu.Unlock()
+					return
+				}
+			}
+		}(w)
+	}
+	wg.Wait()
+	if bad != "" {
+		o.failFor(prop, "concurrent-result-differs", bad)
+	}
+	o.countN("concurrent-xor-getters", rounds*4*runtime.GOMAXPROCS(0))
+}
+
 func runC07(o *out, thorough bool, r *rng, _ []string) map[string]interface{} {
+	concurrentXorGetters(o, "C07", 3000)
 	sharedDestinationMonitor(o, r, 300)
 	destinationChainMonitor(o, r, 1500)
 	lookupCases(o, r, 600) // getters run through ForEach: a failing callback must not leave the message truncated
@@ -389,6 +433,9 @@ func runC07(o *out, thorough bool, r *rng, _ []string) map[string]interface{} {
 		if i%3 == 1 {
 			// bytes after the declared length: Decode tolerates them and keeps them in Raw; a check leaves them there
 			data = append(data, r.bytes(r.pick([]int{1, 4, 8, 12, 20}))...)
+		}
+		if i%3 == 2 {
+			data[0] |= byte(0x40 << uint(i%2)) // a type word with one of its two leading bits set: decodable, and left as it is
 		}
 		// the verdicts do not depend on where the check is called from (a ForEach callback sees a Message whose
 		// attribute list is cut to the visited attribute while the callback runs), nor on the key living in a
@@ -644,6 +691,44 @@ func runC06(o *out, thorough bool, r *rng, _ []string) map[string]interface{} {
 			o.run(603, []string{fHex(tid), "2", fHex(mv)}, true)
 		}
 		o.count("ports")
+	}
+	// IPv6 XOR addresses whose WIRE image (before un-XORing) looks like an IPv4-mapped address, and whose decoded
+	// value does: read as the 16 bytes they are
+	for i := 0; i < 40; i++ {
+		tid := r.bytes(12)
+		wire := append([]byte{0, 2, byte(r.intn(256)), byte(r.intn(256))}, append([]byte{0, 0, 0, 0, 0, 0, 0, 0, 0, 0, 0xff, 0xff}, r.bytes(4)...)...)
+		o.run(603, []string{fHex(tid), "1", fHex(wire)}, true)
+		mapped := append([]byte{0, 0, 0, 0, 0, 0, 0, 0, 0, 0, 0xff, 0xff}, r.bytes(4)...)
+		pad := append([]byte{0x21, 0x12, 0xa4, 0x42}, tid...)
+		wire2 := []byte{0, 2, byte(r.intn(256)), byte(r.intn(256))}
+		for k := range mapped {
+			wire2 = append(wire2, mapped[k]^pad[k])
+		}
+		o.run(603, []string{fHex(tid), "1", fHex(wire2)}, true)
+		o.count("xor-values-that-look-ipv4-mapped")
+	}
+	// what the ERROR-CODE getter hands out belongs to the caller (it is a view into the message): overwriting it
+	// changes nothing about the phrases the library writes for default codes afterwards
+	for _, code := range defaultCodes {
+		m1 := new(stun.Message)
+		if m1.Build(stun.BindingError, stun.NewTransactionIDSetter([12]byte{1}), stun.ErrorCode(code)) != nil {
+			continue
+		}
+		d := new(stun.Message)
+		var ec stun.ErrorCodeAttribute
+		if stun.Decode(m1.Raw, d) != nil || ec.GetFrom(d) != nil {
+			continue
+		}
+		for k := range ec.Reason {
+			ec.Reason[k] = 'X'
+		}
+		ec.Reason = append(ec.Reason[:0], []byte("recycled by the caller")...)
+		m2 := new(stun.Message)
+		_ = m2.Build(stun.BindingError, stun.NewTransactionIDSetter([12]byte{1}), stun.ErrorCode(code))
+		if !bytes.Equal(m1.Raw, m2.Raw) {
+			o.fail("default-reason-changed-by-a-caller", fmt.Sprintf("x ErrorCode(%d): built %s, then a getter result was overwritten by its owner, then built %s", code, fHex(m1.Raw), fHex(m2.Raw)))
+		}
+		o.count("default-reason-table")
 	}
 	// text: every length 0..limit+1 for each text attribute
 	for kind := 0; kind < 4; kind++ {
